@@ -62,10 +62,10 @@ CallAction(e) ==
   CASE e.ev = "open"  -> Open(e.nm = 1)
     [] e.ev = "put"   -> \/ WriteEntry(EntryOf(e), e.fl = 1, e.told = 1)
                          \/ PutDropped(EntryOf(e))
-                         \/ PutWedged(EntryOf(e), e.fl = 1, e.told = 1)
-    [] e.ev = "flush" -> Flush \/ WedgedFail("flush")
-    [] e.ev = "sync"  -> Sync \/ WedgedFail("sync")
-    [] e.ev = "close" -> Close \/ WedgedFail("close")
+                         \/ PutWedged(EntryOf(e), e.fl = 1, e.told = 1, e.fk # "")
+    [] e.ev = "flush" -> Flush \/ WedgedFail("flush", e.fk # "")
+    [] e.ev = "sync"  -> Sync \/ WedgedFail("sync", e.fk # "")
+    [] e.ev = "close" -> Close \/ WedgedFail("close", e.fk # "")
     [] OTHER -> FALSE
 
 IsCall(e) == e.ev \in {"open", "put", "flush", "sync", "close"}
